@@ -361,3 +361,24 @@ PROPERTY_META["C15"] = {
     "technique": "solver-based bounded symbolic execution (CBMC) with lock-poisoning stubs (lockset discipline); no interleaving exploration",
     "assumptions": ["lockset argument: state that is only accessed while its mutex is held, with the invariant re-established at each unlock, is race-free", "pthread_mutex_lock/unlock are the only synchronisation on these structures"],
     "trusted_base": []}
+
+# --------------------------------------------------------------------------
+# C18: ctx_store.c + item.c over OPENSSL digest/PEM/SSL_CTX stubs and a file-system stub
+# --------------------------------------------------------------------------
+CS_US = ["EVP_DigestUpdate.0:18", "EVP_DigestFinal_ex.0:154", "EVP_DigestFinal_ex.1:154", "EVP_DigestFinal_ex.2:154", "EVP_DigestFinal_ex.3:154", "EVP_DigestFinal_ex.4:154",
+         "memcmp.0:34", "memcpy.0:34", "memset.0:34", "strlen.0:6", "vsnprintf.0:40", "vsnprintf.1:40"]
+ob("ctxstore.key.values", "ctxstore/ctx_h.c", ["-DOP_KEY"], ["C18"], unwind=8, unwindset=CS_US,
+   desc="cache key injectivity: two arbitrary designations of four items (absent / by value, 1-2 chars) share a key iff they are the same designation (digest modelled as its byte transcript)")
+ob("ctxstore.key.file", "ctxstore/ctx_h.c", ["-DOP_KEY", "-DKEY_FILE", "-DNO_LINK", "-DTMAX=100"], ["C18"], unwind=8, unwindset=CS_US, timeout=900,
+   desc="cache key: an item by file (two paths, arbitrary stat tuples) versus by value: same key iff same designation")
+ob("ctxstore.key.file.symlink", "ctxstore/ctx_h.c", ["-DOP_KEY", "-DKEY_FILE", "-DTMAX=150"], ["C18"], unwind=8, unwindset=CS_US, timeout=3000, tier="thorough", mem_gb=30,
+   desc="cache key: as ctxstore.key.file, the path may be a symbolic link (link and target are both part of the key)")
+ob("ctxstore.key.change", "ctxstore/ctx_h.c", ["-DOP_KEY_CHANGE", "-DTMAX=150"], ["C18"], unwind=8, unwindset=CS_US, timeout=900,
+   desc="the same by-file designation in two file-system states (path possibly a symbolic link): key changes iff the file or the link's target changed")
+ob("ctxstore.get", "ctxstore/ctx_h.c", ["-DOP_GET", "-DABSTRACT_DIGEST"], ["C18", "C08", "C15"], unwind=8, unwindset=CS_US,
+   desc="ctx_store_get_ctx from a cache with/without a matching entry: hit only for the identical designation, use counts, re-read loop when a file changes during loading, every loader (PEM certificate/key/bundle/CRL, key match) failing at will -> EPROTO and nothing cached or leaked; lock released on every path")
+ob("ctxstore.put", "ctxstore/ctx_h.c", ["-DOP_PUT"], ["C18", "C08", "C15"], unwind=8, unwindset=CS_US, desc="ctx_store_put: the context is freed exactly when its last user lets go")
+PROPERTY_META["C18"] = {"assumptions": ["OPENSSL digest contract: digest equal <=> byte transcript of the EVP_DigestUpdate calls equal (the harness records the transcript)",
+                                        "file system stub: a path has a stat tuple (dev, ino, size, mtime) that may change between two looks; equal tuple = unchanged file is the cache's own design assumption",
+                                        "PEM/X509/SSL_CTX loaders are stubs that succeed or fail at the solver's choice; a PEM bundle is n good entries followed by a clean end or a damaged entry"],
+                        "trusted_base": [], "bounds": "item strings of 1-2 characters, two paths, cache of <= 2 entries", "outside": "PEM parsing itself; real file-system update sequences (rename/symlink flips) beyond the stat-tuple abstraction; NOW/namespace file naming (get_file)"}
